@@ -288,6 +288,11 @@ func z4Run(history []z4Op) z4Result {
 			out.Listed = len(tags.Models)
 		}
 		out.Fingerprint = w.snapshot().semantic4()
+		if gos.Getenv("VERIF_DEBUG_DUMP") != "" {
+			for n, raw := range w.snapshot().Manifests {
+				fmt.Fprintf(gos.Stderr, "MANIFEST %s %s\n", n, raw)
+			}
+		}
 	})
 	out.Failures = res.Failures
 	for _, p := range res.Panics {
@@ -305,7 +310,8 @@ func (s ztSnap) semantic4() string {
 	sort.Strings(names)
 	var b strings.Builder
 	for _, n := range names {
-		fmt.Fprintf(&b, "%s=%x\n", n, sha256.Sum256([]byte(s.Manifests[n])))
+		// (a layer created from a file records the file's absolute path: the per-process scratch root is not part of the state)
+		fmt.Fprintf(&b, "%s=%x\n", n, sha256.Sum256([]byte(strings.ReplaceAll(s.Manifests[n], ztRoot, "$ROOT"))))
 	}
 	var blobs []string
 	for n := range s.Blobs {
@@ -352,10 +358,10 @@ func ZZVerifC04() {
 		gos.Exit(0)
 	}
 	alphabet := z4Alphabet(thorough)
-	depth := 3
-	budget := 100 * gotime.Second
+	depth := 4
+	budget := 240 * gotime.Second
 	if thorough {
-		depth = 5
+		depth = 6
 		budget = 18 * gotime.Minute
 	}
 	deadline := gotime.Now().Add(budget)
